@@ -49,7 +49,7 @@ func c13Doc(t *rapid.T, tag string) map[string]any {
 // c13Query draws one query over a document built with the given tag.
 func c13Query(t *rapid.T, tag string, site int, readOnlyOnly bool) (q string, orderOpen bool, kind string, reader bool) {
 	kinds := []string{"filter", "subquery", "exists", "join", "pjoin", "group", "async", "order", "cte", "phash", "reader", "in_sub", "spinasync", "derived",
-		"range_reader", "range_from", "distinct_reader", "cte_async", "derived_async", "sub_async", "range_col", "pjoin_fail", "var_corunner", "join_using", "union", "distinct_wide", "distinct_wide_reader", "cte_join_using", "cte_self_pjoin", "like", "like", "cte_direct_slow", "sub2_async"}
+		"range_reader", "range_from", "distinct_reader", "cte_async", "derived_async", "sub_async", "range_col", "pjoin_fail", "var_corunner", "join_using", "union", "distinct_wide", "distinct_wide_reader", "cte_join_using", "cte_self_pjoin", "like", "like", "cte_direct_slow", "sub2_async", "constants", "report"}
 	kind = rapid.SampledFrom(kinds).Draw(t, "qkind")
 	k := rapid.IntRange(0, 4).Draw(t, "k") * 10
 	T, U, id, a, s, n, v, b := "t"+tag, "u"+tag, "id"+tag, "a"+tag, "s"+tag, "n"+tag, "v"+tag, "b"+tag
@@ -100,6 +100,12 @@ func c13Query(t *rapid.T, tag string, site int, readOnlyOnly bool) (q string, or
 		pat := rapid.SampledFrom([]string{"x%", "%y", "y", "%", "x", "_", "%x%"}).Draw(t, "likepat")
 		neg := rapid.SampledFrom([]string{"", "NOT "}).Draw(t, "likeneg")
 		return fmt.Sprintf("SELECT %s, %s FROM %s WHERE %s %sLIKE '%s'", id, s, T, s, neg, pat), false, kind, false
+	case "constants":
+		// every caller passes the same constants map (shared configuration): it is only ever read
+		return fmt.Sprintf("SELECT %s, CONSTANT('unit') AS unit, CONSTANT('conf') AS conf, (SELECT CONSTANT('unit') AS u2 FROM dual) AS sub FROM %s WHERE %s >= CONSTANT('lim')", id, T, a), false, kind, false
+	case "report":
+		// REPORT hands an error to the caller's own handler, synchronously, and adds no column
+		return fmt.Sprintf("SELECT %s, REPORT_WHEN(%s >= %d, CONCAT('big-', %s)), (SELECT REPORT(CONCAT('n-', %s)) FROM %s) AS sub FROM %s", id, a, k, id, v, n, T), false, kind, false
 	case "cte_direct_slow":
 		// a selector that walks through a CTE whose body is slow: evaluated while other clients parse new selectors
 		return fmt.Sprintf("WITH c%s AS (SELECT %s, %s, ASYNC.fx(%d, %s) AS y FROM %s) SELECT %s FROM `c%s.%s`", tag, id, n, site, a, T, v, tag, n), false, kind, false
@@ -183,11 +189,12 @@ func genC13(t *rapid.T) *Bundle {
 				di = 0
 			}
 			vi := -1
-			if qkind == "var_corunner" {
+			if qkind == "var_corunner" && rapid.IntRange(0, 2).Draw(t, "with_vars") != 0 {
+				// one time in three the query is built without WithVars: the variable context starts out nil
 				varsets = append(varsets, map[string]any{})
 				vi = len(varsets) - 1
 			}
-			cl.Ops = append(cl.Ops, casefmt.Op{Doc: di, Vars: vi, Query: q, Reader: reader})
+			cl.Ops = append(cl.Ops, casefmt.Op{Doc: di, Vars: vi, Query: q, Reader: reader, ConstShared: qkind == "constants"})
 			open = append(open, oo)
 		}
 		clients = append(clients, cl)
@@ -231,7 +238,8 @@ func genC13(t *rapid.T) *Bundle {
 		exp.OrderOpen[0] = append(pre, exp.OrderOpen[0]...)
 	}
 	sim := drawSim(t, "")
-	c := casefmt.Case{Prop: "C13", Sim: sim, Docs: docs, Clients: clients, Vars: varsets}
+	c := casefmt.Case{Prop: "C13", Sim: sim, Docs: docs, Clients: clients, Vars: varsets,
+		SharedConstants: map[string]any{"unit": "ms", "lim": 10.0, "conf": map[string]any{"levels": []any{1.0, 2.0}, "on": true}}}
 	var sites []int
 	for i := 1; i <= site; i++ {
 		sites = append(sites, i)
@@ -326,6 +334,10 @@ func evalC13(b *Bundle, r *Runner) []*Violation {
 				aa, ok2 := asArray(ar)
 				same = ok1 && ok2 && multisetEqual(ca, aa)
 			}
+			if same && strings.Join(conc.Reported, "|") != strings.Join(alone.Reported, "|") && !strings.Contains(b.Case.Clients[ci].Ops[oi].Query, "ASYNC.") {
+				vs = append(vs, mkViolation(b, "SOLO_MISMATCH", "reported", fmt.Sprintf("client %d op %d (%s): errors handed to its handler concurrently %v, alone %v",
+					ci, oi, b.Case.Clients[ci].Ops[oi].Query, conc.Reported, alone.Reported), o))
+			}
 			if !same {
 				vs = append(vs, mkViolation(b, "SOLO_MISMATCH", "rows", fmt.Sprintf("client %d op %d (%s):\n concurrently %s\n alone        %s",
 					ci, oi, b.Case.Clients[ci].Ops[oi].Query, compact(conc.Rows), compact(alone.Rows)), o))
@@ -379,7 +391,7 @@ func corpusC13() []*Bundle {
 func init() {
 	register(&Property{
 		ID: "C13", Race: true, Plain: true, Level: "exploration",
-		Rule:   "cases = rapid-generated sets of 2-4 simulated client tasks x 1-3 queries (filters, row-scoped subqueries, EXISTS, IN-subquery, joins incl. PARALLEL variants, GROUP BY, ASYNC/SPINASYNC stubs, ORDER BY, CTE, derived tables, direct path selectors incl. open-ended slices and top-level functions, USING joins, UNION, CTE self-joins, LIKE filters with per-query patterns, DISTINCT over wide rows, PARALLEL joins failing for every key, ASYNC inside CTE/derived table/subquery, user code writing the variable context from ASYNC goroutines; stub faults placed by argument value) on separate documents with fresh selector texts / warmed selector cache / one shared document / the same query texts issued by every client; executed under np/walk/pct/sync schedules in a -race child (ThreadSanitizer as happens-before oracle on the controlled schedule), then each client re-run alone for solo equivalence; non-trivial = >=2 tasks runnable at some yield, or fault fired, or non-identity map order; distinct = distinct case-file hash",
+		Rule:   "cases = rapid-generated sets of 2-4 simulated client tasks x 1-3 queries (filters, row-scoped subqueries, EXISTS, IN-subquery, joins incl. PARALLEL variants, GROUP BY, ASYNC/SPINASYNC stubs, ORDER BY, CTE, derived tables, direct path selectors incl. open-ended slices and top-level functions, USING joins, UNION, CTE self-joins, LIKE filters with per-query patterns, DISTINCT over wide rows, PARALLEL joins failing for every key, ASYNC inside CTE/derived table/subquery, user code writing the variable context from ASYNC goroutines; stub faults placed by argument value) on separate documents with fresh selector texts / warmed selector cache / one shared document / the same query texts issued by every client; executed under np/walk/pct/sync schedules in a -race child (ThreadSanitizer as happens-before oracle on the controlled schedule), then each client re-run alone for solo equivalence; non-trivial = >=2 tasks runnable at some yield, or fault fired, or non-identity map order; distinct = distinct case-file hash; queries reading CONSTANT(..) all receive one shared constants map, queries calling REPORT/REPORT_WHEN must hand exactly their own errors to their own handler (compared with the solo run)",
 		Corpus: corpusC13, Gen: genC13, Eval: evalC13, QuickChecks: 250,
 		Assumptions: []string{
 			"ThreadSanitizer sees exactly the program's own synchronisation: scheduler hand-offs run under runtime.RaceDisable and simulator bookkeeping is //go:norace over slices",
